@@ -28,28 +28,31 @@ LEVEL = "proof"
 STRENGTH = "partial"      # some clauses are proved only under a named guard or rest on oracle/tie only: see LEVEL_TEXT
 ENGINES = ["lean-model", "purediff"]
 LEVEL_TEXT = (
-    "PARTIAL. Proved without guard, for ALL well-formed JSON values (mutual structural induction, no bound): diff_self_empty; "
-    "diff_empty_iff (diff a b = [] iff a ≈ b; ≈ = Python == modulo null-valued keys — both deviations from JSON equality are "
-    "findings: F7 bool/int, C04-F10 null/absent, proved witnesses); apply_diff; reduce_exact (reduce (diff a b) path = diff (a at "
-    "path) (b at path), every path) + reduce_apply / reduce_empty_iff; essence_wf; change_detected. "
-    "Proved under a guard that IS the gap: status_invisible / status_removal_invisible (handler fields keep their own values; F8 = "
-    "extra_status_witness), system_metadata_invisible (labels/annotations/ownerReferences unchanged; ownerReferences = C04-N2, "
-    "adoption_loses_last_handled_witness), kopf_storage_write_invisible_partial + store_marker_spec (writes of a Kopf annotations "
-    "storage are invisible iff its prefix gets the marker or is kopf.zalando.org/sub-domain; C04-N1 = kopf_prefix_unmarked_witness), "
-    "marked_annotation_invisible, prefix_group_invisible, first_custom_prefix_write_invisible, first_annotation_write_invisible "
-    "(reserved-prefix hypothesis; its failure = C04-F11, marker_first_write_witness), touch_field_witness (C04-N3). "
+    "STRENGTH partial. Proved without guard, for ALL well-formed JSON values (mutual structural induction, no bound): diff_self_empty; "
+    "diff_empty_iff (diff a b = [] iff a ≈ b; ≈ = JSON equality — `same` = diffs._same after kopf 6b2e53c, a boolean never equals a "
+    "number — modulo null-valued keys; the one remaining deviation is finding C04-F10, null_absent_witness); apply_diff; reduce_exact "
+    "(reduce (diff a b) path = diff (a at path) (b at path), every path) + reduce_apply / reduce_empty_iff; essence_wf; "
+    "change_detected; bool_number_change_detected (former F7). "
+    "Proved under a guard that IS the gap: status_invisible / status_removal_invisible (handler fields keep their own values), "
+    "system_metadata_invisible (labels/annotations/ownerReferences unchanged; ownerReferences = C04-N2, "
+    "adoption_loses_last_handled_witness), kopf_storage_write_invisible + store_marker_spec (the merged patch of a Kopf annotations "
+    "storage incl. _store_marker after kopf ef55390 is invisible for EVERY prefix; instance kopf_dev_touch_invisible = former C04-N1), "
+    "marked_annotation_invisible, prefix_group_invisible, first_custom_prefix_write_invisible, first_annotation_write_invisible — all "
+    "under the reserved-prefix hypothesis whose failure is C04-F11 (marker_first_write_witness); handler fields covering own "
+    "storage locations = F8 (extra_annotations_witness; former primary witness closed by kopf dbb523b: status_handler_touch_invisible, "
+    "touch_field_cleaned = former C04-N3). "
     "Proved under a guard BROADER than any known gap: payload_exact / essence_injective_on_payload / payload_change_detected "
     "(AvoidKey), label_exact / annotation_exact / label_change_detected / ordinary_annotation_change_detected (MetaPlain), "
     "own_key_unmarked_invisible_partial (MetaPlain, kind present, annotations present before the write; every diff-base "
-    "configuration incl. Multi after 55b75e2, instance multi_drs_own_key_invisible). "
+    "configuration incl. Multi after 55b75e2, instance multi_drs_own_key_invisible = former C04-F9). "
     "Oracle/tie only (NO theorem): the composition fetch∘store (`diff(clear(fetch(body')), clear(build(body')))` after a real "
-    "store/purge/touch: only key names and the marker are modelled, not the JSON encoding), what handlers receive in a cycle "
+    "store/purge/touch: key names, marker and merge are modelled, the JSON encoding is not), what handlers receive in a cycle "
     "(real process_resource_causes with several handlers, field= and whole-object mixed, all lifecycles), statelessness of the "
     "storage objects (shared-instance sequences), everything outside MetaPlain, an `old` built under another handler set. "
-    "Tie: differential run of the real diffs.diff/reduce, DiffBaseStorage.build (+Annotations/Status/Multi), ProgressStorage.clear, "
-    "make_keys and _store_marker, built with the real constructors, against the model — on generated bodies, on the bodies after "
-    "every own write and after the writes of OTHER Kopf operators' real storages (arbitrary prefixes), on one shared storage "
-    "instance serving sequences of objects; handlers' kwargs in real cycles are tied to the model's reduce.")
+    "Tie: differential run of the real diffs.diff/reduce, DiffBaseStorage.build (+Annotations/Status/Multi), ProgressStorage.clear "
+    "(incl. touch_field), make_keys and _store_marker, built with the real constructors, against the model — on generated bodies, on "
+    "the bodies after every own write and after the writes of OTHER Kopf operators' real storages (arbitrary prefixes), on one "
+    "shared storage instance serving sequences of objects; handlers' kwargs in real cycles are tied to the model's reduce.")
 TIE = ("D (differential: real diff/reduce/build/clear/make_keys vs. the Lean model, incl. post-write bodies and shared-storage "
        "sequences) + constants read from the AST")
 THEOREMS: list[tuple[str, str]] = []     # filled below from THEOREM_NAMES
@@ -79,13 +82,14 @@ ASSUMPTIONS = ["numbers are integers (no floats in generated bodies)",
 
 THEOREM_NAMES = [
     "diff_self_empty", "diff_empty_iff", "apply_diff", "reduce_exact", "reduce_apply", "reduce_empty_iff",
-    "bool_int_witness", "null_absent_witness",
+    "null_absent_witness", "bool_number_change_detected",
     "status_invisible", "status_removal_invisible", "system_metadata_invisible",
     "marked_annotation_invisible", "prefix_group_invisible", "first_custom_prefix_write_invisible",
     "first_annotation_write_invisible",
-    "kopf_storage_write_invisible_partial", "store_marker_spec", "kopf_prefix_unmarked_witness", "marker_first_write_witness",
-    "own_key_unmarked_invisible_partial", "multi_drs_own_key_invisible", "extra_status_witness",
-    "adoption_loses_last_handled_witness", "touch_field_witness",
+    "kopf_storage_write_invisible", "store_marker_spec", "kopf_dev_touch_invisible", "marker_first_write_witness",
+    "own_key_unmarked_invisible_partial", "multi_drs_own_key_invisible",
+    "extra_annotations_witness", "status_handler_touch_invisible", "touch_field_cleaned",
+    "adoption_loses_last_handled_witness",
     "payload_exact", "essence_injective_on_payload", "essence_wf",
     "change_detected", "payload_change_detected", "label_exact", "annotation_exact",
     "label_change_detected", "ordinary_annotation_change_detected",
@@ -567,7 +571,7 @@ def model_cfg(K: dict, ds: Any, ps: Any) -> dict:
         if isinstance(s, p.AnnotationsProgressStorage):
             return [{"kind": "annotations", "prefix": s.prefix}]
         if isinstance(s, p.StatusProgressStorage):
-            return [{"kind": "status", "field": list(s.field)}]
+            return [{"kind": "status", "field": list(s.field), "touch": list(s.touch_field)}]
         raise ValueError(f"unsupported progress storage {type(s).__name__}")
     return {"diffbase": md, "progress": prog(ps), "hashes": sorted([k, v] for k, v in hashes.items())}
 
@@ -603,7 +607,7 @@ def status_clean_paths(K: dict, ps: Any) -> list[list[str]]:
     if isinstance(ps, p.MultiProgressStorage):
         return [x for s in ps.storages for x in status_clean_paths(K, s)]
     if isinstance(ps, p.StatusProgressStorage):
-        return [list(ps.field)]
+        return [list(ps.field), list(ps.touch_field)]
     return []
 
 
@@ -756,7 +760,7 @@ def eval_diff_case(K: dict, case: dict, out: Out, tags: list[str] | None = None)
     out.ask("diffs.diff", ["C04.diff", a, b], d, replay)
     out.ask("diffs.reduce", ["C04.reduce", d, path], r, replay)
     out.ask("applier (Lean applyDiff vs. the oracle's applier)", ["C04.apply", d, a], applied, replay)
-    out.ask("equivalence (Lean ≈ vs. Python == modulo null keys)", ["C04.equiv", a, b], equiv_py(a, b), replay)
+    out.ask("equivalence (Lean ≈ vs. JSON equality modulo null keys)", ["C04.equiv", a, b], equiv_strict(a, b), replay)
 
 
 def gen_diff_case(rng: random.Random) -> tuple[dict, list[str]]:
@@ -1553,6 +1557,6 @@ def replay(ctx: Ctx, data: dict) -> None:
         print(f"{f.kind}: {f.what}")
 
 
-WITNESS_NAMES = {"kopf_prefix_unmarked_witness", "marker_first_write_witness", "adoption_loses_last_handled_witness",
-                 "touch_field_witness", "extra_status_witness", "multi_drs_own_key_invisible"}
+WITNESS_NAMES = {"kopf_dev_touch_invisible", "marker_first_write_witness", "adoption_loses_last_handled_witness",
+                 "touch_field_cleaned", "extra_annotations_witness", "status_handler_touch_invisible", "multi_drs_own_key_invisible"}
 THEOREMS = [("Kopf.Props.C04_Witnesses" if n in WITNESS_NAMES else "Kopf.Props.C04", f"Kopf.C04.{n}") for n in THEOREM_NAMES]
